@@ -24,10 +24,10 @@ PROPERTY = "C19"
 LEVEL = "model_checking"
 BOUNDS = {
     "quick": {"code sizes": "0,1,2,3,29,30,31,59,60,61,90,91,255,256 (all bytes symbolic); "
-                            "65535, 65536, 65537, 65566, 65600 (symbolic windows of 64 bytes at the start, "
+                            "65535, 65536, 65537..65567 (every residue of the record length after the S1/S2 switch), 65600 (symbolic windows of 64 bytes at the start, "
                             "around offset 65536 and at the end; fixed pattern elsewhere)"},
-    "thorough": {"code sizes": "0..124, 255, 256, 257, 1000, 2000 (all bytes symbolic); 4095, 4096, 65535, 65536, 65537, "
-                               "65566, 65600, 70000 (symbolic windows of 512 bytes at the start, around offset "
+    "thorough": {"code sizes": "0..124, 255, 256, 257, 1000, 2000 (all bytes symbolic); 4095, 4096, 65505..65598 (every size around the S1/S2 switch), "
+                               "65600, 70000 (symbolic windows of 512 bytes at the start, around offset "
                                "65536 and at the end; fixed pattern elsewhere)"},
 }
 OUTSIDE = ["code of 16 MiB and more (S3 records)", "a code section placed at a non-zero address "
@@ -143,9 +143,10 @@ def mk_w(size, window=0):
 def _sizes(tier):
     if tier == "quick":
         return [(n, 0) for n in (0, 1, 2, 3, 29, 30, 31, 59, 60, 61, 90, 91, 255, 256)] + \
-               [(n, 64) for n in (65535, 65536, 65537, 65566, 65600)]
+               [(n, 64) for n in (65535, 65536, 65600)] + \
+               [(65536 + k, 64) for k in range(1, 32)]      # every residue of the 30-byte record length past the S1/S2 switch
     return [(n, 0) for n in list(range(0, 125)) + [255, 256, 257, 1000, 2000]] + \
-           [(n, 512) for n in (4095, 4096, 65535, 65536, 65537, 65566, 65600, 70000)]
+           [(n, 512) for n in (4095, 4096, 65600, 70000)] + [(65536 + k, 512) for k in range(-31, 63)]
 
 
 def jobs(tier, seed):
